@@ -19,7 +19,7 @@ PAIRS = {
 }
 
 
-def patterns(pairname, motion=None, with_terms=False):
+def patterns(pairname, motion=None, with_terms=False, extras=False):
     """Returns (search Atoms, replace Atoms).  motion = (Rotation, translation) applied jointly to both."""
     from mofun import Atoms
     se, sx, re_, rx = PAIRS[pairname]
@@ -34,6 +34,10 @@ def patterns(pairname, motion=None, with_terms=False):
                   bond_type_coeffs=["harmonic 100.0 1.2 # pat-b0", "harmonic 200.0 1.5 # pat-b1"])
         if len(re_) > 2:
             kw.update(angles=[(0, 1, 2)], angle_types=[0], angle_type_coeffs=["fourier 50.0 1 1 1 # pat-a0"])
+    if extras and len(re_):
+        kw.update(extra_atom_labels=['_site_pat_note', '_site_pat_occ'], extra_atom_fields=[['p%d' % i, '0.5'] for i in range(len(re_))])
+        if 'bonds' in kw:
+            kw.update(extra_bond_labels=['_bond_pat_dist'], extra_bond_fields=[['1.%d' % i] for i in range(len(kw['bonds']))])
     with quiet():
         sp = Atoms(elements=list(se), positions=sx)
         if len(re_):
@@ -61,6 +65,8 @@ def planted(cellname, pairname, copies, seed, decoys=3, straddle=True):
     if len(se) == 1:
         # every atom of that element is an occurrence of a one-atom pattern
         case['planted'] = [(i,) for i, e in enumerate(case['structure'].elements) if e == se]
+        from scipy.spatial.transform import Rotation as R
+        case['poses'] = [(R.identity(), np.array(case['structure'].positions[i[0]])) for i in case['planted']]
     return case
 
 
